@@ -214,7 +214,7 @@ def generate(src):
     dyn_names = sorted({c.split('(')[0] for c in dyn_calls})
     callees = sorted({ast.unparse(n.func) for fd in load_path.values() for n in ast.walk(fd) if isinstance(n, ast.Call)})
     known = set(load_path) | {'isinstance', 'issubclass', 'get_pickled_exception', 'create_exception_cls', 'subclass_exception', 'getattr', 'exc_type.split', 'taskiq.exceptions.SecurityError', 'Exception', 'exception_to_python',
-             'cls', 'exc.restore', 'type', 'getmro', 'inspect.getmro', 'takewhile', 'itertools.takewhile', 'tuple', 'list', 'len', 'str', 'repr', 'reversed', 'iter', 'next',          # pure builtins / stdlib helpers
+             'cls', 'exc.restore', 'type', 'getmro', 'inspect.getmro', 'takewhile', 'itertools.takewhile', 'tuple', 'list', 'len', 'str', 'repr', 'reversed', 'iter', 'next', 'BaseException.__setattr__',          # pure builtins (the base class's own attribute setter: a field store, runs no user code) / stdlib helpers
              *dyn_names,          # local variables that are called: each such site carries a proved call-target obligation (h_dynamic)
              'create_exception_cls(self.exc_cls_name, self.exc_module)', 'validate_call', 'pydantic.ConfigDict'}          # the last two: the @validate_call decorator (TRUSTED)
     callees = [c for c in callees if not re.match(r"^(logger|logging|log|_?LOGGER)\.\w+$", c)]          # logging calls: no-ops for this property
